@@ -1,6 +1,7 @@
 package main
 
 import (
+	"os"
 	"fmt"
 	"go/constant"
 	"go/token"
@@ -711,6 +712,10 @@ func exitJoin(fn *ssa.Function, li *loopInfo, order []*ssa.BasicBlock, isBack ma
 			for _, s := range b.Succs {
 				if !isBack[[2]*ssa.BasicBlock{b, s}] {
 					stack = append(stack, s)
+				} else if s != li.header && !li.body[s] {
+					// a back edge of an enclosing loop: its header is where this way out of the inner loop ends
+					// (terminal: not expanded), so that exits which only meet there still have a join
+					r[s] = true
 				}
 			}
 		}
@@ -734,6 +739,32 @@ func exitJoin(fn *ssa.Function, li *loopInfo, order []*ssa.BasicBlock, isBack ma
 		if all {
 			join = b
 			break
+		}
+	}
+	if os.Getenv("GVC_DEBUG_JOIN") != "" {
+		var ts []int
+		for _, t := range targets {
+			ts = append(ts, t.Index)
+		}
+		ji := -1
+		if join != nil {
+			ji = join.Index
+		}
+		fmt.Fprintf(os.Stderr, "exitJoin %s header b%d: targets %v join b%d\n", fn.Name(), li.header.Index, ts, ji)
+		for k, t := range targets {
+			var rs []int
+			for b := range sets[k] {
+				rs = append(rs, b.Index)
+			}
+			sort.Ints(rs)
+			var ps, ss []int
+			for _, p := range t.Preds {
+				ps = append(ps, p.Index)
+			}
+			for _, q := range t.Succs {
+				ss = append(ss, q.Index)
+			}
+			fmt.Fprintf(os.Stderr, "   target b%d preds %v succs %v reach %v\n", t.Index, ps, ss, rs)
 		}
 	}
 	region := map[*ssa.BasicBlock]bool{}
